@@ -13,6 +13,8 @@ from .symexec import (NotFormed, PyVal, Closure, Static, PyTuple, Flow, VC, Stat
 from .symexpr import ExprMixin, BoundBuiltin, is_term
 from .symspec import SpecEval, to_bool, to_v
 
+dv_key = z3.Function('dv_key', V, T.I, V)
+dv_pos = z3.Function('dv_pos', V, V, T.I)
 MAX_INLINE_DEPTH = 6
 MAX_UNROLL = 40
 GEN_BUDGET_S = int(os.environ.get('PV_GEN_BUDGET_S', '150'))
@@ -680,6 +682,23 @@ class Executor(ExprMixin):
         ext = self.reg.externals.get('method:' + name)
         if ext is not None:
             return ext(self, st, [o] + list(args), kwargs, node)
+        if name == 'values' and not args:
+            # list(d.values()): one element per key; witnesses: dv_key(L, j) = key of the j-th value, dv_pos(L, key) = its
+            # position (A-ORDER: insertion order, not otherwise constrained)
+            def vals(s):
+                L = V.List(fresh('lid', T.I))
+                j, key = fresh('j', T.I), fresh('key')
+                kj = dv_key(L, j)
+                return [(s.add(ln(L) == T.dcount(o), T.dcount(o) >= 0,
+                               z3.ForAll([j], z3.Implies(z3.And(0 <= j, j < ln(L)),
+                                                         z3.And(T.dhas(o, kj), T.dget(o, kj) == at(L, j), dv_pos(L, kj) == j)),
+                                         patterns=[at(L, j)]),
+                               z3.ForAll([key], z3.Implies(T.dhas(o, key),
+                                                           z3.And(0 <= dv_pos(L, key), dv_pos(L, key) < ln(L),
+                                                                  dv_key(L, dv_pos(L, key)) == key,
+                                                                  at(L, dv_pos(L, key)) == T.dget(o, key))),
+                                         patterns=[T.dhas(o, key)])), L)]
+            return self.cases(st, [(is_('Dict', o), vals), (z3.Not(is_('Dict', o)), lambda s: self.exc(s, 'AttributeError'))])
         raise NotFormed(f'method .{name}() is not modelled')
 
     # ------------------------------------------------------------------ comprehensions
@@ -834,7 +853,7 @@ class Executor(ExprMixin):
                 if not any(z3.eq(c, s_[0]) for s_ in sub) and c.decl().name().split('!')[0] in ('lid', 'did', 'tid') \
                         and not self._occurs(c, st.all_facts()):
                     if not (is_term(elem) and self._occurs(c, [elem])):
-                        raise NotFormed('comprehension element with nested allocation')
+                        raise NotFormed(f'comprehension element with nested allocation ({c}) in {str(f)[:300]}')
         guard = z3.And(inrange, z3.substitute(cond, (kq, j))) if g.ifs else inrange
         allf = z3.And([z3.substitute(f, *sub) for f in body_facts if not _is_cond(f, cond)] +
                       [z3.substitute(elem_fact, *sub)])
@@ -1521,7 +1540,8 @@ class Executor(ExprMixin):
         st.maxid = fresh('maxid0', T.I)
         st = st.add(st.maxid >= 0)
         xl = z3.Const('len_x', V)
-        bg = [z3.ForAll([xl], ln(xl) >= 0, patterns=[ln(xl)])]     # lengths are never negative
+        bg = [z3.ForAll([xl], ln(xl) >= 0, patterns=[ln(xl)]),     # lengths are never negative
+              z3.ForAll([xl], T.dcount(xl) >= 0, patterns=[T.dcount(xl)])]
         for ax in getattr(self.reg, 'axioms', ()):      # defining axioms of recursive spec functions (triggered unfolding)
             bg += list(ax())
         st.bg = tuple(bg)
